@@ -1,8 +1,8 @@
 CONSTANTS
   NK = 3
-  HMax = 3
-  MaxOps = 4
-  Full = FALSE
+  HMax = 2
+  MaxOps = 5
+  Full = TRUE
   BucketSize = 2
   LoadNum = 3
   LoadDen = 2
